@@ -19,8 +19,15 @@ func Harness_C20_SharedHandler() {
 	c1, s1, st1 := c17Create("a")
 	_, s2, st2 := c17Create("b")
 	did1, did2 := ns+":"+s1+":"+st1, ns+":"+s2+":"+st2
-	seq1, e1 := h.ResolveDocument(did1)
-	seq2, e2 := h.ResolveDocument(did2)
+	// sequential reference results come from a second handler: the shared one is used for the first time by the
+	// concurrent calls (lazily initialised state would be raced for)
+	ref, rerr := New(ns)
+	if rerr != nil {
+		verifrt.Fail("handler construction failed")
+		return
+	}
+	seq1, e1 := ref.ResolveDocument(did1)
+	seq2, e2 := ref.ResolveDocument(did2)
 	var r1, r2, r3 *document.ResolutionResult
 	var x1, x2, x3 error
 	verifrt.Concurrent(
